@@ -248,3 +248,53 @@ def free_bvs(v, memo=None):
             r |= free_bvs(a, memo)
         return r
     return frozenset()
+
+
+def early_verdicts_agree(ctx, qualname, oid, valid_lengths, what, opaque=(), max_depth=8):
+    """A predicate that wraps a decoder may answer before consulting it (`if <cheap test>: return False`) only where no
+    valid input exists. `valid_lengths` are input lengths for which the specification has valid inputs: with the length
+    bound to each of them the predicate's verdict must not be decided (it has to depend on the content)."""
+    R = ctx.R
+    fi = ctx.fn(qualname)
+    ev = ctx.evaluator(opaque=set(opaque), max_depth=max_depth)
+    from .spec import P
+    a = P(fi.params()[0], tm.BYTES)
+    bad = []
+    for L in valid_lengths:
+        ev.bind = {tm.length(a): L}
+        sm = ev.run(fi)
+        accepting = [e for e in sm.exits if e.kind == "return" and e.value is not None and e.value is not False and tm.land(list(e.guard)) is not False]
+        if not accepting:  # no path on which an input of this length is accepted
+            bad.append((L, decided_outcome(sm)))
+    ev.bind = {}
+    R.check(oid, "DECISION-TABLE", fi, "%s: no input length that %s can have is refused outright (%d lengths)" % (fi.name, what, len(valid_lengths)), not bad,
+            "%s answers %s for every input of length %s, although %s of that length exist" % (
+                fi.name, (bad[0][1][1] if bad[0][1][0] == "return" else "with " + str(bad[0][1][1])) if bad else "", ", ".join(str(b[0]) for b in bad[:8]), what),
+            example=("%s of length %d" % (what, bad[0][0])) if bad else None)
+
+
+def enclosing_try_handlers(fnode, pred):
+    """[(call node, [handler type names])] for every call satisfying pred that sits in the body of a try statement."""
+    import ast
+    out = []
+
+    def walk(node, stack):
+        for ch in ast.iter_child_nodes(node):
+            if isinstance(node, ast.Try) and ch in node.body:
+                names = []
+                for h in node.handlers:
+                    if h.body and isinstance(h.body[-1], ast.Raise):
+                        continue  # the handler re-raises: the refusal still propagates
+                    if h.type is None:
+                        names.append("BaseException")
+                    else:
+                        for t in (h.type.elts if isinstance(h.type, ast.Tuple) else [h.type]):
+                            names.append(ast.unparse(t))
+                st2 = stack + [names]
+            else:
+                st2 = stack
+            if isinstance(ch, ast.Call) and pred(ch) and st2:
+                out.append((ch, [n for names in st2 for n in names]))
+            walk(ch, st2)
+    walk(fnode, [])
+    return out
